@@ -62,6 +62,7 @@ type Contract struct {
 	Props     []string
 	Callsites []*CallsiteReq
 	Implicit  bool
+	CallsitesOnly bool
 	Construction bool // called only before the receiver is shared: guarded-field accesses are exempt
 }
 
@@ -307,6 +308,10 @@ func (ss *SpecSet) LoadContractFile(path string, pkgPath string) error {
 			cur.Inline = true
 		case "construction":
 			cur.Construction = true
+		case "callsites-only":
+			// only the call-site clauses of this contract are proved for the body (its other obligations - callee
+			// preconditions, safety - are out of scope for this contract and are not generated as claims)
+			cur.CallsitesOnly = true
 		case "pure-function":
 			// in-repository function whose result is a deterministic, heap-independent function of its arguments
 			// (assumption, listed); callers and specs may use it as an uninterpreted function constrained by its ensures
